@@ -58,7 +58,23 @@ MANIFEST = dict(
           "convex as declared. The new exact-rational instances are compared with the library on every run (QF CQ KK LM GB GS EN lines and more "
           "FN lines aimed at exact ties; geometric optimisation through interval lemmas), with new direct oracles for the proved clauses "
           "(`expansion`: f(z)-f(x)-g.(z-x) == the remainder of the theorem computed independently; `active-piece`: first largest piece and "
-          "sub-gradient on exact ties; `classnll-softmax`: gradient == soft-max - indicator, value within eps of lse - posum in long double)."),
+          "sub-gradient on exact ties; `classnll-softmax`: gradient == soft-max - indicator, value within eps of lse - posum in long double). "
+          "SECOND EXTENSION (C06_Rest_Defs.v / C06_Rest.v, 11 more theorems, stage `rest`): every one of the 54 declared objects now has the theorem its "
+          "declaration calls for. Full Taylor expansions along every line, f(x + s d) = f(x) + s g(x).d + s^2 R2 + s^3 R3 + s^4 R4 for all real s with "
+          "executable coefficient functions (so gradient = derivative and the remainder is explicit), by induction over the coordinate list / chain / "
+          "blocks of four, for schumer-steiglitz, styblinski-tang, qing, axis ellipsoid, chung-reynolds, sargan, zakharov, rosenbrock, dixon-price and "
+          "powell (newly modelled; its linear forms and gradient combinations are translated kernels); Coquelicot derivatives along every direction for "
+          "exponential, cauchy, geometric optimisation, the three pieces of chained CB3 and the chain sums of CB3 II; witnesses for the objects declared "
+          "non-convex (cauchy function, cauchy / savage / tangent kernels, elastic-net cauchy loss, the surrogate with model (0,0,-1)) -- and powell, declared "
+          "non-convex, is PROVED convex (pessimistic declaration); functional constraints forward value, gradient and flags (translated kernels) so that "
+          "they are convex whenever the wrapped function is; the gboost grads objective mean_i L(t_i, x_i) over the concatenated outputs and the surrogate "
+          "FIT objective sum_i L(y_i, phi(p_i).x) are convex for every convex loss (declarations forward loss.convex(): translated); the quadratic surrogate "
+          "m.phi(x) has an exact expansion with the gradient loops of the source; maxquad AS CONSTRUCTED: the fill of the source (mirrored off-diagonal "
+          "entries, diagonal = own non-negative term + sum of |off-diagonal| of the row; index expressions translated) yields symmetric positive "
+          "semi-definite pieces for ANY entries (iterated border decomposition), hence function_maxquad_t is convex unconditionally. Tie: FX SG SF GG MQ lines "
+          "(exact-Q instance vs the library on dyadic points, incl. the remainder f(x+d)-f(x)-g.d of the implementation against the polynomial of the theorem), "
+          "interval lemmas for single maxquad entries, new direct oracles `taylor` (five-point stencil, exact for quartics: derivative == g.d to rounding; fifth "
+          "difference == 0), `psd-piece` (x.g - f >= 0 for the active piece), `forwarding` (functional constraint == wrapped function, bit for bit)."),
     note=("Coq kernel + standard real-number axioms + Coquelicot + CoqInterval (per-run lemmas, Qed-checked); regular-expression flag parser and translator (6 size kernels + the 4 branch tests of chained_cb3I/II) in "
           "tools/; extraction (ExtrOcamlBasic, exact Q); harness against the library built from the working tree + OCaml driver; "
           "floating-point rounding is outside the theorems (compared within 1e-9 / searched with tolerances); objects without a "
@@ -72,7 +88,13 @@ MANIFEST = dict(
           "semi-definiteness of the maxquad matrices (built from exp/cos/sin in the constructor; maxquad has a theorem but no model tie), "
           "`least eigenvalue of the symmetric part is a Rayleigh lower bound` (spectral theorem, not proved: the ext stage checks the declared "
           "coefficient against d'Pd/d'd on its pairs); the random data of fn:quadratic / kinks / geometric / elastic net are re-drawn by the "
-          "harness with the constructor's public calls (fn:quadratic additionally reads the matrix off the gradient and compares it with I + B B')."),
+          "harness with the constructor's public calls (fn:quadratic additionally reads the matrix off the gradient and compares it with I + B B'). "
+          "Second extension: 19 more translated kernels in their own group Src_c06rest.v (flag forwarding of functional constraints / gboost grads / surrogate fit, "
+          "maxquad index expressions and loop bounds, powell's linear forms and gradient combinations, the surrogate's inner loop bound), each pinned by a theorem; "
+          "maxquad's transcendental ENTRIES (exp/cos/sin) are recomputed by the harness with the constructor's formulas (tied to the real specification by per-run "
+          "interval lemmas and to the library through the MQ value / gradient lines) -- the theorem holds for any entries; after this round no declared object "
+          "is without a theorem (objects_without_theorem = []); still only searched: squared-hinge gradient = derivative (C1, piecewise), the spectral fact "
+          "`least eigenvalue = Rayleigh bound`, value-only == value+gradient, locality on the implementation, floating-point distance to the model."),
     technique="Coq proof over R of a model shared with its extracted exact-rational instance (proved Q->R transfer), source-parsed "
               "declaration table, differential correspondence, per-run kernel-checked interval enclosures of the transcendental specs "
               "at sampled points (validation at sampled points, not the unbounded claim), direct property oracles on the implementation",
@@ -81,8 +103,11 @@ MANIFEST = dict(
 VARIANTS = ["rel"]
 # lines the extracted model recomputes (SIZE LV FN CN: first build; QF CQ KK LM GB GS: extension stage `ext`, C06_Convex2_Defs.v); GE lines
 # (geometric optimisation) go through the per-run interval lemmas
-TIE_PREFIXES = ("SIZE ", "LV ", "FN ", "CN ", "QF ", "CQ ", "KK ", "LM ", "GB ", "GS ", "EN ", "GE ")
-EXT_CLAUSES = ("expansion", "active-piece", "classnll-softmax")
+# second extension (stage `rest`, C06_Rest_Defs.v): FX SG SF GG MQ are recomputed by the extracted model; ME MD MB (single entries of maxquad's
+# matrices / vectors as the harness recomputes them with the constructor's formulas) go through interval lemmas
+TIE_PREFIXES = ("SIZE ", "LV ", "FN ", "CN ", "QF ", "CQ ", "KK ", "LM ", "GB ", "GS ", "EN ", "GE ", "FX ", "SG ", "SF ", "GG ", "MQ ", "ME ", "MD ", "MB ")
+EXT_CLAUSES = ("expansion", "active-piece", "classnll-softmax", "taylor", "psd-piece", "forwarding")
+REST_CLAUSES = ("taylor", "psd-piece", "forwarding")      # clauses of the stage `rest` (replay: c06_objects <tier> rest)
 
 # object of the declaration table -> theorem(s) of Properties_C06.v that justify its `convex` declaration (or refute convexity)
 OBJECT_THEOREMS = {
@@ -105,7 +130,22 @@ OBJECT_THEOREMS = {
     "cons:quadratic": "C06_cons_quadratic_convex", "util:convex(P)": "C06_cons_quadratic_convex", "util:strong_convexity(P)": "C06_cons_quadratic_convex",
     "ml:linear": "C06_ml_linear_convex (+ C06_ml_linear_strong_convexity_in_bias_refuted)", "ml:gboost-bias": "C06_ml_gboost_convex",
     "ml:gboost-scale": "C06_ml_gboost_convex",
+    # second extension (C06_Rest): the table is complete
+    "fn:powell": "C06_fn_powell_declared_nonconvex_is_convex (declared non-convex, proved CONVEX: the declaration is pessimistic)",
+    "fn:cauchy": "C06_fn_cauchy_declared_nonconvex", "loss:cauchy": "C06_loss_declared_nonconvex", "loss:savage": "C06_loss_declared_nonconvex",
+    "loss:tangent": "C06_loss_declared_nonconvex", "enet-loss:cauchy": "C06_loss_declared_nonconvex",
+    "cons:functional": "C06_cons_functional_convex", "ml:gboost-grads": "C06_ml_gboost_grads_convex",
+    "ml:quadratic-surrogate-fitting-function": "C06_ml_surrogate_fit_convex", "ml:quadratic-surrogate-function": "C06_ml_surrogate_quadratic",
 }
+OBJECT_THEOREMS["fn:maxquad"] = "C06_fn_maxquad_convex + C06_fn_maxquad_constructed_convex (the constructor's matrices are symmetric psd: unconditional)"
+# gradient == derivative theorems (exact Taylor expansion along every line / Coquelicot is_derive), by object
+DERIVATIVE_THEOREMS = {
+    "C06_fn_polynomial_taylor": ["fn:schumer-steiglitz", "fn:styblinski-tang", "fn:qing", "fn:axis-ellipsoid", "fn:chung-reynolds", "fn:sargan", "fn:zakharov",
+                                 "fn:rosenbrock", "fn:dixon-price", "fn:powell"],
+    "C06_fn_transcendental_deriv": ["fn:exponential", "fn:cauchy", "fn:geometric-optimization", "fn:chained_cb3I (pieces)", "fn:chained_cb3II (pieces and chain sums)"],
+    "C06_ml_surrogate_quadratic": ["ml:quadratic-surrogate-function"],
+    "C06_fn_trid_convex / C06_fn_rotated_ellipsoid_convex / C06_fn_quadratic_convex / C06_fn_sphere_convex / C06_cons_*": ["exact second-order expansions of the first extension"],
+    "C06_loss_kernels_deriv / C06_loss_deriv / C06_fn_separable_deriv": ["smooth loss kernels, whole samples, separable functions (first build)"]}
 HARNESS = "c06_objects"
 
 # Findings of the unchanged code (see notes/C06.md). LINEAR_FP is listed in known_findings.json (integrator decision): it is reported
@@ -254,9 +294,18 @@ IV_HEADER = """(* GENERATED by tools/checks/c06.py on every run from the values 
    Validation at sampled points, not the unbounded claim. *)
 From Coq Require Import Reals List Lra.
 From Interval Require Import Tactic.
-From LN Require Import C06_Defs C06_Convex2_Defs.
+From LNGen Require Import Src_c06rest.
+From LN Require Import C06_Defs C06_Convex2_Defs C06_Rest_Defs.
 Import ListNotations.
 Local Open Scope R_scope.
+
+(* maxquad (C06_Rest_Defs.v): single entries exp(si/sj) cos(si sj) sin(sk), si |sin sk| / n, exp(si/sk) sin(si sk) with the translated index expressions *)
+Ltac iv_mq :=
+  unfold mq_b; cbn [seq map nth];
+  unfold mq_e, mq_dg, mq_s, mq_sj, mq_sk, src_c06rest_maxquad_si, src_c06rest_maxquad_sj, src_c06rest_maxquad_sk;
+  repeat match goal with |- context [IZR ?z] => let z' := eval vm_compute in z in progress change (IZR z) with (IZR z') end;
+  cbn [INR];
+  interval with (i_prec 70).
 
 (* geometric optimisation sum_i exp(a_i + A_i . x) and its gradient A' exp(a + A x) (C06_Convex2_Defs.v) *)
 Ltac iv_geo :=
@@ -405,12 +454,38 @@ def iv_cases(lines, tier, seed):
                 by["FN " + i].append(l)
         elif l.startswith("GE "):
             by["GE geometric"].append(l)
+        elif l.startswith(("ME ", "MD ", "MB ")):
+            by["MQ maxquad-entries"].append(l)
     cases, skipped = [], collections.Counter()
-    for key in sorted(by):
+    for key in sorted(by, key=lambda k: (not k.startswith("MQ "), k)):     # the maxquad entries first: the cap of the thorough tier is reached before the last keys
         ls = by[key]
         rnd.shuffle(ls)
         for l in ls[:per_id]:
             lhs, rhs = l.split(" = ", 1)
+            if key.startswith("MQ "):
+                import math
+                p = lhs.split()
+                try:
+                    number = _frac(rhs.strip())
+                except (ValueError, OverflowError):
+                    skipped["non-finite"] += 1
+                    continue
+                a, b, c = int(p[1]), int(p[2]), int(p[3])
+                if p[0] == "ME":
+                    term, sp = "mq_e %d %d %d" % (a, b, c), math.exp((b + 1) / (c + 1)) * math.cos((b + 1) * (c + 1)) * math.sin(a + 1)
+                elif p[0] == "MD":
+                    term, sp = "mq_dg %d %d %d" % (a, b, c), (c + 1) * abs(math.sin(a + 1)) / b
+                else:
+                    term, sp = "nth %d (mq_b %d %d) 0" % (c, a, b), math.exp((c + 1) / (a + 1)) * math.sin((c + 1) * (a + 1))
+                tol = decimal.Decimal(IV_REL) * (1 + decimal.Decimal(abs(sp)))
+                tolq = Fraction(int(tol.scaleb(40).to_integral_value(rounding=decimal.ROUND_FLOOR)), 10 ** 40)
+                err = abs(decimal.Decimal(sp) - decimal.Decimal(number.numerator) / decimal.Decimal(number.denominator))
+                cases.append({"name": "iv_%04d" % len(cases), "line": l, "what": "value", "object": key, "tac": "iv_mq",
+                              "stmt": "Rabs (%s - %s) <= %s" % (term, _rlit(number), _rlit(tolq)),
+                              "spec": repr(sp), "err": float(err), "tol": float(tol), "ratio": float(err / tol)})
+                if len(cases) >= cap:
+                    return cases, skipped
+                continue
             lp, rp = lhs.split(" | "), rhs.split(" | ")
             geo = None
             try:
@@ -652,7 +727,7 @@ def run(tier, replay=None):
         r.violation("impl-%s-%s" % (key[0], re.sub(r"[^\w]+", "_", key[1])[:40]),
                     {"kind": "direct property check failed on the implementation", "clause": key[0], "family": key[1],
                      "case": shortest[:8000], "failures_of_this_kind": len(same),
-                     "replay_cmd": cmd("ext" if (key[0] in EXT_CLAUSES or key[1].endswith("(ext)")) else _group(key[1])) + " | grep '^FAIL %s '" % key[0],
+                     "replay_cmd": cmd("rest" if (key[0] in REST_CLAUSES or key[1].endswith("(rest)")) else ("ext" if (key[0] in EXT_CLAUSES or key[1].endswith("(ext)")) else _group(key[1]))) + " | grep '^FAIL %s '" % key[0],
                      "meaning": "FAIL clause object(description sufficient to rebuild it) | family | numbers as C hex floats: x, z, "
                                 "gradient, value(s); the replay command regenerates the case from VERIF_SEED"})
     what = {LINEAR_FP: "linear::function_t declares strong_convexity = l2/(isize*tsize) but the bias is not regularised: the objective is "
@@ -668,7 +743,7 @@ def run(tier, replay=None):
         else:
             candidates.append(dict(payload, fingerprint=fp))
     # 3./4. correspondence with the extracted exact-rational model
-    mism, checked, skipped, ext_checked = [], 0, 0, 0
+    mism, checked, skipped, ext_checked, rest_checked = [], 0, 0, 0, 0
     drv = None
     try:
         drv = vlib.build_ocaml("c06_driver", "c06_model.ml", "c06_driver.ml")
@@ -685,6 +760,7 @@ def run(tier, replay=None):
                 d = _kv(l)
                 checked, skipped = int(d.get("checked", 0)), int(d.get("skipped", 0))
                 ext_checked = int(d.get("ext", 0))
+                rest_checked = int(d.get("rest", 0))
         if rc2 != 0 or (not checked and tie_lines):
             r.violation("driver", {"kind": "model driver failed", "out": mout[-2000:]}, no_input=True)
         kinds = set()
@@ -702,17 +778,18 @@ def run(tier, replay=None):
             r.violation("corr-%s" % re.sub(r"[^\w]+", "_", kind)[:40],
                         {"kind": "implementation differs from the exact model beyond 1e-9 of the summed magnitudes (0-1 errors, sizes: exactly)",
                          "case": shortest[:8000], "mismatches_of_this_kind": len(same),
-                         "replay_cmd": cmd("") + " | grep -E '^(SIZE|LV|FN|CN|QF|CQ|KK|LM|GB|GS|EN) ' | " + str(drv),
+                         "replay_cmd": cmd("") + " | grep -E '^(SIZE|LV|FN|CN|QF|CQ|KK|LM|GB|GS|EN|FX|SG|SF|GG|MQ) ' | " + str(drv),
                          "meaning": "`<harness line> // model: <what the model computes>`; LV loss alpha | target | output = value | "
                                     "gradient | error; FN function n | x = f | gradient; CN kind n | parameters | x = f | gradient; extension stage: "
                                     "QF n | a | B | A read off the gradient | x; CQ kind n | P | q | r | x; KK n | K | offset | x; LM loss l1 l2 isize tsize | "
                                     "inputs | targets | x; EN loss alpha1 alpha2 n | inputs | targets | bias | x; GB loss tsize | targets | x; GS loss tsize groups | group of each sample | soutputs | woutputs | targets | x "
-                                    "(rows separated by `;`, C hex floats)"},
+                                    "(rows separated by `;`, C hex floats); stage rest: FX function n | x | d = f(x) | g(x) | f(x+d); SG n | model | x | d = f(x) | g(x) | f(x+d); "
+                                    "SF loss np | p rows | y | x = f | g; GG loss tsize | targets | x = f | g; MQ n kd | off-diagonal entries e(i<j) of every piece (pieces separated by /) | own diagonal terms | b_k | x = f | g"},
                         no_input=not plain and p[1] == "SIZE")
     # style D: kernel-checked interval enclosures of the transcendental specifications at sampled points of this run
     iv = {"lemmas": 0, "failed": [], "seconds": 0.0, "error": None}
     iv_list, iv_skipped = [], {}
-    if os.path.exists(os.path.join(vlib.COQ, "theories", "C06_Defs.vo")) and os.path.exists(os.path.join(vlib.COQ, "theories", "C06_Convex2_Defs.vo")):
+    if all(os.path.exists(os.path.join(vlib.COQ, "theories", f)) for f in ("C06_Defs.vo", "C06_Convex2_Defs.vo", "C06_Rest_Defs.vo")):
         iv_list, iv_skipped = iv_cases(tie_lines, tier, r.seed)
         iv = iv_gate(r, iv_list, tier)
         for i, c in enumerate(iv["failed"][:4]):
@@ -731,7 +808,10 @@ def run(tier, replay=None):
     vlib.proof_coverage(r, cres, "make -C coq theories/Properties_C06.vo && coqc theories/Properties_C06.v (Print Assumptions)",
                         ["tools/checks/c06.py: parser of the convex/smooth/strong_convexity declarations (regular expressions over "
                          "src/function/benchmark/*.cpp, elastic_net.h, flatten.h, pinball.cpp, constraint.cpp, linear/gboost/surrogate constructors)",
-                         "tools/translate.py (6 size kernels, 4 branch tests of chained_cb3I/II, extension: maxhilb denominator, maxquad loop test, 2 guards of linear/function.cpp)",
+                         "tools/translate.py (6 size kernels, 4 branch tests of chained_cb3I/II, extension: maxhilb denominator, maxquad loop test, 2 guards of linear/function.cpp; "
+                         "second extension: 19 kernels of Src_c06rest.v -- flag forwarding, maxquad fill indices, powell forms, surrogate loop bound)",
+                         "second extension: the harness recomputes maxquad's entries exp(si/sj) cos(si sj) sin(sk), si |sin sk| / n, exp(si/sk) sin(si sk) with std::exp/cos/sin "
+                         "(tied to the real specification by interval lemmas, to the library by the MQ lines)",
                          "extension stage: the harness re-draws the random data of fn:quadratic / kinks / geometric / elastic net with the constructors' public calls "
                          "(make_random_*, synthetic_scalar_t / synthetic_sclass_t) and builds the per-sample design matrices of the linear / gboost objectives in the driver",
                          "extraction: ExtrOcamlBasic (exact Q on the inductive Z/positive)",
@@ -765,6 +845,8 @@ def run(tier, replay=None):
     cov["correspondence_lines_checked"] = checked
     cov["correspondence_lines_without_model"] = skipped
     cov["correspondence_lines_extension_stage"] = ext_checked
+    cov["correspondence_lines_rest_stage"] = rest_checked
+    cov["derivative_theorems"] = DERIVATIVE_THEOREMS
     distinct = set(vlib.sha(l) for l in tie_lines if not l.startswith("SIZE ") and re.search(r"0x1\.[0-9a-f]*p|0x1p", l.split(" = ", 1)[-1]))
     cov["distinct_nontrivial"] = len(distinct)
     cov["rule"] = ("objects: 17 losses x outputs {1,2,3,5,13} (thorough 1..13) x target patterns (regression dyadic/random, one-hot, no / all / "
@@ -804,12 +886,11 @@ def run(tier, replay=None):
 
 
 UNPROVED = [
-    "gradient == derivative for squared-hinge and the non-separable / transcendental functions without an exact expansion (rosenbrock, "
-    "dixon-price, powell, zakharov, chung-reynolds, sargan, exponential, cauchy, geometric, cb3, ...): exact-Q correspondence with the closed "
-    "forms where algebraic + central differences on the implementation (trid, rotated ellipsoid, fn:quadratic, quadratic / coordinate / ball / "
-    "linear constraints, sphere now have exact expansions = derivative theorems)",
-    "convexity of functional constraints, gboost-grads, surrogate-fit objectives: convexity inequality with hill-climbing on the implementation only; "
-    "maxquad: theorem for symmetric psd pieces, but the matrices of the constructor (exp/cos/sin) are not tied (searched)",
+    "gradient == derivative for squared-hinge (C1 but piecewise), class-NLL as a whole sample, chained_lq / chained_cb3 / maxq / maxhilb / kinks / maxquad on "
+    "their kinks (sub-gradient theorems instead) : central differences / one-sided quotients on the implementation. After the second extension every "
+    "polynomial benchmark function has a full Taylor expansion theorem and exponential / cauchy / geometric / the cb3 pieces have is_derive theorems",
+    "ML objectives (linear, gboost bias / scale / grads, surrogate fit, elastic net): convexity theorems through `loss_convex_on`; gradient == derivative of "
+    "these objectives is searched only (central differences) unless the loss kernel is algebraic (exact-Q correspondence)",
     "declared strong convexity of quadratic objects = least eigenvalue of the symmetric part computed by Eigen: the theorem needs a Rayleigh lower "
     "bound; that the numerically computed eigenvalue is one is searched (ext stage: d'Pd >= mu |d|^2 on its pairs; general oracle with hill-climbing)",
     "class-NLL adds machine epsilon inside the logarithm: proved |value - ideal| <= ln(1+eps) and the inequality up to that slack; the exact "
@@ -818,6 +899,10 @@ UNPROVED = [
     "per-sample locality on the implementation (batch of 8 == one-by-one within 16 ulp; 0-1 errors exactly)",
     "floating-point: |library value - exact model| <= 1e-9 * (summed magnitudes) for the algebraic objects",
     "transcendental objects agree with their real specification: kernel-checked only at the sampled points of each run (interval "
-    "lemmas, now also geometric optimisation), not for all inputs; chained_cb3I/II, maxquad values have no interval tie",
+    "lemmas: losses, exponential / cauchy functions, geometric optimisation, single maxquad entries), not for all inputs; chained_cb3I/II values have no interval tie",
+    "maxquad: the transcendental entries are recomputed by the harness (formulas of the constructor) -- the convexity theorem holds for ANY entries, the "
+    "placement (mirroring, diagonal) is the model's and is compared with the library through value and gradient on every MQ line",
+    "functional constraints: the theorem is conditional on the wrapped function (every registered prototype that declares convex has its own theorem); "
+    "forwarding is compared bit for bit on the implementation",
     "ML objectives with transcendental / class-NLL losses: covered by the theorems through `loss_convex_on`, their values are not recomputed by the "
-    "model (LM/GB/GS/EN lines use the algebraic kernels mse, mae, pinball, hinge, squared-hinge)"]
+    "model (LM/GB/GS/EN/SF/GG lines use the algebraic kernels mse, mae, pinball, hinge, squared-hinge)"]
